@@ -1,6 +1,7 @@
 package main
 
 import (
+	"github.com/fxamacker/cbor/v2"
 	"errors"
 	"fmt"
 	"time"
@@ -62,11 +63,15 @@ type KDesc struct {
 	InnerS    string    `json:"inner_s,omitempty"`
 	Must      int64     `json:"must"`
 	Epoch     uint64    `json:"epoch,omitempty"`
+	Raw       *HexBytes `json:"raw,omitempty"` // one well-formed CBOR item
 }
 
 func (k *KDesc) apply(x *XKClaims) {
 	x.Name, x.Count, x.Flag, x.Must = k.Name, k.Count, k.Flag, k.Must
 	x.KEpoch = KEpoch(k.Epoch)
+	if k.Raw != nil {
+		x.Raw = append(cbor.RawMessage{}, (*k.Raw)...)
+	}
 	if k.Blob != nil {
 		x.Blob = append([]byte{}, (*k.Blob)...)
 	}
@@ -122,6 +127,10 @@ func genK(r *Rng) *KDesc {
 	}
 	if r.Chance(1, 2) {
 		k.Epoch = uint64(1 + r.Intn(1<<30))
+	}
+	if r.Chance(1, 2) {
+		items := [][]byte{{0x01}, {0x43, 0xaa, 0xbb, 0xcc}, {0x82, 0x01, 0x62, 'h', 'i'}, {0xa1, 0x01, 0x02}, {0x19, 0x12, 0x34}, {0x65, 'h', 'e', 'l', 'l', 'o'}}
+		k.Raw = hp(items[r.Intn(len(items))])
 	}
 	return k
 }
